@@ -515,6 +515,7 @@ def gen_case(seed, tier):
         base["tx_gap"] = rng.choice([0.01, 0.1, 0.6]) * base["timeout"]
         return base
     base["kind"] = rng.choice(["tcp_full", "tcp_full", "fallback"])
+    base["stale_render"] = rng.random() < 0.2
     base["connect"] = rng.choice([["ok", 0.0], ["ok", 0.0], ["ok", 0.1], ["refused", 0.0], ["refused", 0.05], ["hang"]])
     base["reply"] = rng.choice(["genuine", "genuine", "genuine", "wrong_id", "garbage", "eof", "stall", "not_response", "trailing", "tc_trailing"])
     base["cuts"] = sorted(rng.randrange(1, 120) for _ in range(rng.choice([0, 1, 3, 8])))
@@ -1242,10 +1243,19 @@ def _run_tcp_full_world(world, case, q, udp_mats=None):
     dns = _d
     import dns.asyncbackend
 
+    q_expected = q
+    if case.get("stale_render"):
+        # the caller's query object was rendered before (an earlier attempt under another id) and then
+        # changed: what goes on the wire must be the query as it is now
+        q = make_query(case)
+        q.id = (q_expected.id + 0x0101) % 65536
+        q.to_wire()
+        q.id = q_expected.id
+
     net = netsim.reset_network()
     VT.reset(9000.0)
     where, af = DESTS[case["dest"]]
-    w, rx = _reply_stream(case, q)
+    w, rx = _reply_stream(case, q_expected)
     c = case["connect"]
     script = TcpScript(connect=tuple(c), rx=rx, tx_accept=case["tx_accept"], tx_gap=case["tx_gap"], max_recv=case["max_recv"], rx_after_request=True)
     net.tcp_scripts["*"] = script
